@@ -324,7 +324,13 @@ func (b *BR) buildNode() (*flyt.BatchNodeBuilder, *flyt.SharedStore) {
 		a := h.cur.onExec(ctx, v, false)
 		return a.val, a.err
 	}
+	fbFunc := func(p any, err error) (any, error) { return h.cur.onFallback(p, err) }
 	var ctorOpts []any
+	if sc.fb && (sc.execVia == viaOptionR || sc.execVia == viaOptionAny) {
+		// the public way of giving a batch node a fallback (the overlay hook is used elsewhere
+		// because the pinned tree ignored constructor options)
+		ctorOpts = append(ctorOpts, flyt.WithExecFallbackFunc(fbFunc))
+	}
 	switch sc.execVia {
 	case viaOptionR:
 		ctorOpts = append(ctorOpts, flyt.WithExecFunc(execR))
@@ -394,10 +400,8 @@ func (b *BR) buildNode() (*flyt.BatchNodeBuilder, *flyt.SharedStore) {
 	default:
 		nb = nb.WithExecFunc(execR)
 	}
-	if sc.fb {
-		flyt.ZZSetFallback(nb, func(p any, err error) (any, error) {
-			return h.cur.onFallback(p, err)
-		})
+	if sc.fb && !(sc.execVia == viaOptionR || sc.execVia == viaOptionAny) {
+		flyt.ZZSetFallback(nb, fbFunc)
 	}
 	if !sc.noPost {
 		nb = nb.WithPostFunc(func(ctx context.Context, st *flyt.SharedStore, items, results []flyt.Result) (flyt.Action, error) {
